@@ -10,7 +10,7 @@ MODULES = {
     "C18": "c18",
     "C19": "c19",
     "C20": "c20",
-    **{p: "pipeline_entry" for p in ("C01", "C02", "C04", "C05", "C06", "C07", "C10", "C11", "C12")},
+    **{p: "pipeline_entry" for p in ("C01", "C02", "C04", "C05", "C06", "C07", "C09", "C10", "C11", "C12", "C16")},
 }
 
 
